@@ -58,6 +58,8 @@ Record table := mkTable {
   t_csr_key_groups : bool;  (* cache key of __Get_csr_map contains the contributing groups *)
   t_csr_key_ndof : bool;    (* ... and Ndof *)
   t_mass_key_group : bool;  (* cache key of HyperElastic.__Mass_e contains the group *)
+  t_param_set_unconditional : bool; (* _Parameter.__set__ raises Need_Update WITHOUT comparing the assigned object with the
+                                       stored one: re-assigning the same array object after an in-place edit still notifies *)
   t_model_cache_refresh : bool (* every reader of a derived quantity cached ON the model (e.g. sqrt(C), sqrt(S) of an
                                   elastic law) triggers the model's lazy update before it tests that cache *)
 }.
@@ -72,7 +74,7 @@ Definition table_ok (T : table) : bool :=
   not_never (t_bcinit T) && not_never (t_dirichlet T) && not_never (t_lagrange T) &&
   t_newton_need T && t_pf_need_d T && t_pf_need_u T && t_pf_setiter_d T && t_pf_setiter_u T &&
   t_pf_dmg_inval_u T && t_pf_el_inval_d T && t_csr_key_groups T && t_csr_key_ndof T &&
-  t_mass_key_group T && t_model_cache_refresh T.
+  t_mass_key_group T && t_param_set_unconditional T && t_model_cache_refresh T.
 
 (* ---- state ------------------------------------------------------------------------- *)
 Record meshS := mkMesh { pose : N; shape : N; gtag : option N }.
@@ -268,6 +270,7 @@ Definition new_sim (T : table) (k : kind) (m : nat) (v : N) : simS :=
 
 Inductive op :=
 | OParam (sub : bool)
+| OParamArr (sub same : bool)   (* array-valued assignment; same = the assigned object IS the stored one (edited in place) *)
 | OMeshMove (m : nat) (k : mop)
 | ONewMesh
 | OGeoRead (m : nat)
@@ -292,6 +295,10 @@ Definition cur_of (w : world) (i : nat) : option nat :=
 Definition step (T : table) (w : world) (o : op) : world :=
   match o with
   | OParam sub => mkW (tick w) (tick w) (mcache w) (meshes w) (map (react_model T sub) (sims w))
+  | OParamArr sub same =>
+      (* identity vs contents: the contents changed in both cases *)
+      mkW (tick w) (tick w) (mcache w) (meshes w)
+          (if same && negb (t_param_set_unconditional T) then sims w else map (react_model T sub) (sims w))
   | OMeshMove m k =>
       mkW (tick w) (par w) (mcache w)
           (upd_nth m (fun x => mkMesh (tick w)
@@ -389,10 +396,10 @@ Definition flag_of (T : table) (id : nat) : bool :=
   | 24 => t_newton_need T | 25 => t_pf_need_d T | 26 => t_pf_need_u T | 27 => t_pf_setiter_d T
   | 28 => t_pf_setiter_u T | 29 => t_pf_dmg_inval_u T | 30 => t_pf_el_inval_d T
   | 31 => t_csr_key_groups T | 32 => t_csr_key_ndof T | 33 => t_mass_key_group T
-  | 34 => t_model_cache_refresh T | 35 => t_meshset_initsols T
+  | 34 => t_model_cache_refresh T | 35 => t_meshset_initsols T | 36 => t_param_set_unconditional T
   | _ => true
   end.
-Definition all_ids : list nat := seq 1 35.
+Definition all_ids : list nat := seq 1 36.
 Definition failing (T : table) : list nat := filter (fun id => negb (flag_of T id)) all_ids.
 
 (* the table with the flags listed in [off] switched off (everything else as the property needs) *)
@@ -403,7 +410,7 @@ Definition mk_table (off : list nat) : table :=
           (on 18) (on 40) (on 19) (on 35) (on 20) (on 41)
           (if on 21 then NIfLag else NNever) (if on 22 then NIfLag else NNever) NNever
           (if on 23 then NAlways else NNever) true (on 24) (on 25) (on 26) (on 27) (on 28) (on 29) (on 30)
-          (on 31) (on 32) (on 33) (on 34).
+          (on 31) (on 32) (on 33) (on 36) (on 34).
 Definition good_table : table := mk_table [].
 
 (* a model-level witness (op list) for every flag: run with that flag off, some simulation is stale *)
@@ -436,6 +443,7 @@ Definition witness (id : nat) : list op :=
   | 33 => [nl; ONewMesh; OSolve 0; OMeshMove 1 MCoordSet; OSetMesh 0 1]
   | 34 => [pfs; OGetK 0 false; OParam true]
   | 35 => [lin; OSolve 0; ONewMesh; OSetMesh 0 1]
+  | 36 => [lin; OGetK 0 false; OParamArr false true]
   | _ => []
   end.
 
